@@ -271,7 +271,8 @@ def lazy_vs_staged(steps, desc, rows, real_lazy, rng):
         except Exception as e:  # noqa
             staged = {'err': S.classify_exc(e)}
             break
-    if S.norm_result(staged) != S.norm_result(real_lazy):
+    both_fail = 'err' in (staged or {}) and 'err' in real_lazy     # ill-typed sequence: which failing step is met first differs
+    if not both_fail and S.norm_result(staged) != S.norm_result(real_lazy):
         out.append(('lazy-vs-staged', {'lazy': S.norm_result(real_lazy), 'staged': S.norm_result(staged)}))
     if 'ok' not in real_lazy or len(facts) < 2:
         return out
@@ -481,6 +482,10 @@ def user_part(ctx):
             # a step fails on rows of a resource that a later package function drops without reading: the lazy
             # run never computes those rows; the sequence is not well-typed for step-by-step evaluation
             rep.hist('user_outcome', 'staged-fails-on-rows-never-read')
+        elif 'err' in lazy and 'err' in staged:
+            # not a well-typed sequence: which of two failing steps is met first differs by construction (the lazy run
+            # executes every package phase before the first row moves); both runs fail, nothing to compare
+            rep.hist('user_outcome', 'both-fail')
         elif S.norm_result(lazy) != S.norm_result(staged):
             sig = 'user:lazy-vs-staged'
             rep.fail(sig, case, {'lazy': str(S.norm_result(lazy))[:1500], 'staged': str(S.norm_result(staged))[:1500]})
